@@ -160,6 +160,36 @@ class Frame:
         raise PyRaise(NameError(name))
 
 
+class LazySeq:
+    """A derived view of a symbolic sequence: elem(i) for 0 <= i < length (z3 terms)."""
+
+    def __init__(self, length, elem):
+        self.length = length
+        self.elem = elem  # i (z3 Int) -> interpreter value
+
+
+class LazyGen:
+    """(elt for target in <symbolic sequence>) - evaluated only by all()/any()."""
+
+    def __init__(self, interp, node, frame, it):
+        self.interp, self.node, self.frame, self.it = interp, node, frame, it
+
+    def quantify(self, universal):
+        it = self.interp
+        src = self.it
+        i = z3.Int(it.path.fresh_name("q"))
+        if isinstance(src, LazySeq):
+            n, val = src.length, src.elem(i)
+        else:
+            n, val = z3.Length(src.t), it.wrap(src.t[i], src.ty.elem)
+        inner = Frame({}, self.frame, self.frame.globs, self.frame.fn_name, self.frame.module)
+        it.assign(self.node.generators[0].target, val, inner)
+        body = it.eval(self.node.elt, inner)
+        bt = it.to_bool_term(body)
+        rng = z3.And(i >= 0, i < n)
+        return z3.ForAll([i], z3.Implies(rng, bt)) if universal else z3.Exists([i], z3.And(rng, bt))
+
+
 class BoundSym:
     """A method of a class applied to a symbolic/partially-symbolic receiver."""
 
@@ -1634,7 +1664,23 @@ class Interp:
         return out
 
     def e_GeneratorExp(self, node, frame):
+        # a generator over a symbolic sequence of unknown length is kept lazy: all()/any() turn it
+        # into a bounded quantifier
+        if len(node.generators) == 1 and not node.generators[0].ifs:
+            it = self.eval(node.generators[0].iter, frame)
+            if isinstance(it, LazySeq) or (isinstance(it, (Sym, SymList)) and isinstance(it.ty, TSeq) and self.concrete_length(it) is None):
+                return LazyGen(self, node, frame, it)
+            return self._listcomp_over(node, frame, it)
         return self.e_ListComp(node, frame)
+
+    def _listcomp_over(self, node, frame, it):
+        out = []
+        g = node.generators[0]
+        inner = Frame({}, frame, frame.globs, frame.fn_name, frame.module)
+        for x in self.iterate_concrete(it, what="comprehension"):
+            self.assign(g.target, x, inner)
+            out.append(self.eval(node.elt, inner))
+        return out
 
     def e_SetComp(self, node, frame):
         h = getattr(self, "symbolic_setcomp", None)
